@@ -16,6 +16,9 @@ type Mutex struct {
 }
 
 func (m *Mutex) Lock() {
+	if vsched.Killing() {
+		return // the run is over: deferred unlocks of a thread being unwound touch nothing
+	}
 	if !vsched.Active() {
 		m.real.Lock()
 		return
@@ -32,6 +35,9 @@ func (m *Mutex) Lock() {
 }
 
 func (m *Mutex) Unlock() {
+	if vsched.Killing() {
+		return // the run is over: deferred unlocks of a thread being unwound touch nothing
+	}
 	if !vsched.Active() {
 		m.real.Unlock()
 		return
@@ -42,6 +48,9 @@ func (m *Mutex) Unlock() {
 }
 
 func (m *Mutex) TryLock() bool {
+	if vsched.Killing() {
+		return true
+	}
 	if !vsched.Active() {
 		return m.real.TryLock()
 	}
@@ -60,6 +69,9 @@ type RWMutex struct {
 }
 
 func (m *RWMutex) Lock() {
+	if vsched.Killing() {
+		return // the run is over: deferred unlocks of a thread being unwound touch nothing
+	}
 	if !vsched.Active() {
 		m.real.Lock()
 		return
@@ -76,6 +88,9 @@ func (m *RWMutex) Lock() {
 }
 
 func (m *RWMutex) Unlock() {
+	if vsched.Killing() {
+		return // the run is over: deferred unlocks of a thread being unwound touch nothing
+	}
 	if !vsched.Active() {
 		m.real.Unlock()
 		return
@@ -86,6 +101,9 @@ func (m *RWMutex) Unlock() {
 }
 
 func (m *RWMutex) RLock() {
+	if vsched.Killing() {
+		return // the run is over: deferred unlocks of a thread being unwound touch nothing
+	}
 	if !vsched.Active() {
 		m.real.RLock()
 		return
@@ -102,6 +120,9 @@ func (m *RWMutex) RLock() {
 }
 
 func (m *RWMutex) RUnlock() {
+	if vsched.Killing() {
+		return // the run is over: deferred unlocks of a thread being unwound touch nothing
+	}
 	if !vsched.Active() {
 		m.real.RUnlock()
 		return
